@@ -1214,3 +1214,56 @@ Proof.
     rewrite Hd in B. split; assumption.
   - destruct (to_stan_failure_fallback O c st1 o p (a :: t) Hs Hts Hd) as (B & I & _). split; assumption.
 Qed.
+
+(* ------------------------------------------------------------------ fields whose renderer fails *)
+Definition field_stan (O : oracles) (f : N) : stan :=
+  match to_stan O f with Some s => SMark s | None => SBroken end.
+
+Lemma format_fields_result O c st src fs : fst (format_fields O c st src fs) = map (field_stan O) fs.
+Proof.
+  revert st. induction fs as [|f fs IH]; intros st; cbn [format_fields map]; [reflexivity|].
+  unfold field_stan at 1. destruct (to_stan O f) as [s|] eqn:E.
+  - rewrite (safe_to_stan_ok O c st (PMark f) src FB_broken true SEC_DOCSTRING (SMark s))
+      by (cbn [to_stan_p]; rewrite E; reflexivity).
+    specialize (IH st). destruct (format_fields O c st src fs). cbn [fst] in *. rewrite IH. reflexivity.
+  - rewrite (safe_to_stan_fail O c st (PMark f) src FB_broken true SEC_DOCSTRING)
+      by (cbn [to_stan_p]; rewrite E; reflexivity).
+    cbn [run_fallback fst snd]. specialize (IH (report_errors st src [EToStanExc] SEC_DOCSTRING)).
+    destruct (format_fields O c (report_errors st src [EToStanExc] SEC_DOCSTRING) src fs). cbn [fst] in *.
+    rewrite IH. reflexivity.
+Qed.
+
+Lemma format_fields_failure_reported O c st src fs f :
+  In f fs -> to_stan O f = None ->
+  mem_pe SEC_DOCSTRING src (parse_errors (snd (format_fields O c st src fs))) = true.
+Proof.
+  revert st. induction fs as [|g fs IH]; intros st Hin Hf; [destruct Hin|]. cbn [format_fields].
+  destruct Hin as [->|Hin].
+  - rewrite (safe_to_stan_fail O c st (PMark f) src FB_broken true SEC_DOCSTRING)
+      by (cbn [to_stan_p]; rewrite Hf; reflexivity).
+    cbn [run_fallback fst snd].
+    pose proof (format_fields_mem_monotone O c (report_errors st src [EToStanExc] SEC_DOCSTRING) src fs SEC_DOCSTRING src
+                 (report_errors_mem_after st src [EToStanExc] SEC_DOCSTRING ltac:(discriminate))) as H.
+    destruct (format_fields O c (report_errors st src [EToStanExc] SEC_DOCSTRING) src fs). exact H.
+  - destruct (safe_to_stan O c st (PMark g) src FB_broken true SEC_DOCSTRING) as [s st1].
+    specialize (IH st1 Hin Hf). destruct (format_fields O c st1 src fs). exact IH.
+Qed.
+
+(* a docstring whose body renders: the body is kept, each field shows its rendering or BROKEN, and a failing field is reported *)
+Theorem field_failure O c st o p s d :
+  pdoc st o = Some (PMark p) -> docstring c o = Some d -> to_stan O p = Some s ->
+  let r := format_docstring O c st o in
+  d_body (fst r) = BStan (SMark s) /\
+  d_fields (fst r) = map (field_stan O) (fields_of O p) /\
+  (forall f, In f (fields_of O p) -> to_stan O f = None -> in_parse_errors (snd r) SEC_DOCSTRING o) /\
+  ((forall f, In f (fields_of O p) -> to_stan O f <> None) -> ~ In SBroken (d_fields (fst r))).
+Proof.
+  intros Hp Hd Hs. cbn zeta. rewrite (format_docstring_cached _ _ _ _ _ Hp), (cached_source_own _ _ _ Hd).
+  unfold render_with.
+  rewrite (safe_to_stan_ok O c st (PMark p) o FB_docstring true SEC_DOCSTRING (SMark s))
+    by (cbn [to_stan_p]; rewrite Hs; reflexivity).
+  cbn [fst snd d_body d_fields fields_p]. split; [reflexivity|]. split; [apply format_fields_result|]. split.
+  - intros f Hin Hf. apply (format_fields_failure_reported O c st o (fields_of O p) f Hin Hf).
+  - intros Hall Hb. rewrite format_fields_result in Hb. apply in_map_iff in Hb. destruct Hb as (f & Hfs & Hin).
+    unfold field_stan in Hfs. destruct (to_stan O f) eqn:E; [discriminate|]. exact (Hall f Hin E).
+Qed.
